@@ -35,6 +35,8 @@ func NewUtxosRegistry(settings application.ProtocolSettingsProvider, initialUtxo
 }
 
 func (registry *UtxosRegistry) CalculateFee(transaction *ledger.Transaction, timestamp int64) (uint64, error) {
+	registry.mutex.RLock()
+	defer registry.mutex.RUnlock()
 	var inputsValue uint64
 	var outputsValue uint64
 	for _, input := range transaction.Inputs() {
@@ -92,6 +94,8 @@ func (registry *UtxosRegistry) Copy() application.UtxosManager {
 }
 
 func (registry *UtxosRegistry) UpdateUtxos(transactions []*ledger.Transaction, timestamp int64) error {
+	registry.mutex.Lock()
+	defer registry.mutex.Unlock()
 	utxosByAddress := copyUtxosMap(registry.utxosByAddress)
 	utxosById := copyUtxosMap(registry.utxosById)
 	for _, transaction := range transactions {
@@ -142,14 +146,14 @@ func (registry *UtxosRegistry) UpdateUtxos(transactions []*ledger.Transaction, t
 	if err := verifyIncomes(utxosByAddress); err != nil {
 		return err
 	}
-	registry.mutex.Lock()
-	defer registry.mutex.Unlock()
 	registry.utxosById = utxosById
 	registry.utxosByAddress = utxosByAddress
 	return nil
 }
 
 func (registry *UtxosRegistry) Utxos(address string) []*ledger.Utxo {
+	registry.mutex.RLock()
+	defer registry.mutex.RUnlock()
 	utxos, ok := registry.utxosByAddress[address]
 	if ok {
 		return utxos
